@@ -26,8 +26,8 @@ EDITS = ["label-add", "label-remove", "label-rename", "annot-remove", "annot-alt
          "section-add", "section-remove", "section-rename", "strip-all-blank", "strip-all-labels", "strip-all-sections", "format-remove", "format-alter", "format-add", "indent", "bytes-content", "bytes-length", "cont-add", "cont-remove", "bytes-column-remove"]
 FLOORS = {f"edit={e}": 0.012 for e in EDITS}
 FLOORS.update({"kinds>=2": 0.4, "edit=format-add": 0.001})
-NAMES = ["see file format notes", "main", "_start", "f@plt", ".text", "foo+0x10", "_ZN3foo3barEv", "foo(int)", "operator new(unsigned long)", "x", "L1", "data_16", "sym.with.dots", "null check:", "0x2000 <main>:", "note: see below", "Disassembly of section .text:", "operator>>", "std::vector<int>::at(unsigned long)", "a<b>::c", "operator>>", "T<U>", "std::map<K, V>::find"]
-HEXNAMES = ["dd", "cc", "bc", "ed", "f", "0", "bad", "cafe", "add", "a", "dead.beef"[:4], "fe"]
+NAMES = ["x" * 1100 + "_long_symbol", "log file format error", "go.string.unknown file format", "Disassembly of section x", "see file format notes", "main", "_start", "f@plt", ".text", "foo+0x10", "_ZN3foo3barEv", "foo(int)", "operator new(unsigned long)", "x", "L1", "data_16", "sym.with.dots", "null check:", "0x2000 <main>:", "note: see below", "Disassembly of section .text:", "operator>>", "std::vector<int>::at(unsigned long)", "a<b>::c", "operator>>", "T<U>", "std::map<K, V>::find"]
+HEXNAMES = ["dd", "cc", "bc", "ed", "f", "0", "bad", "cafe", "add", "a", "dead.beef"[:4], "fe", "alarm.o", "libsparcle.so", "/home/u/pharmacy/mipsel/x.o", "charm-ppc-riscv.o", "aarch64_shim.o", "s390.bin"]
 INST = re.compile(r"^(\s*)([0-9a-f]+):\t((?:[0-9a-f]{2} )+)(\s*)\t(\S.*)$")
 
 
@@ -77,7 +77,9 @@ def apply_edits(lines, edits):
         if k == "label-add":
             i = pick(inst, w)
             a = INST.match(lines[i]).group(2)
-            lines[i:i] = ["", f"{int(a, 16):016x} <{e['name']}>:"]
+            # as objdump prints a label, or with the file offset objdump -F adds after the symbol
+            tail = "" if e["n"] % 3 else f" (File Offset: 0x{int(a, 16) + 0x1000:x})"
+            lines[i:i] = ["", f"{int(a, 16):016x} <{e['name']}>{tail}:"]
         elif k in ("label-remove", "label-rename"):
             i = pick([i for i, ln in enumerate(lines) if LABEL_LINE.match(ln)], w)
             if i is None:
@@ -85,7 +87,7 @@ def apply_edits(lines, edits):
             if k == "label-remove":
                 del lines[i]
             else:
-                lines[i] = re.sub(r"<.*>:$", f"<{e['name']}>:", lines[i])
+                lines[i] = re.sub(r"<.*>[^>]*:$", (f"<{e['name']}>:" if e["n"] % 3 else f"<{e['name']}> (File Offset: 0x{e['n'] * 16 + 0x40:x}):"), lines[i])
         elif k in ("annot-remove", "annot-alter"):
             i = pick([i for i in inst if re.search(r"\t[^#]*[0-9a-f] <[^#]*>", lines[i])], w)
             if i is None:
